@@ -404,4 +404,104 @@ theorem Inv.reach {s0 : σ} {sys : Nat → Thread σ ℓ} (wf : ∀ i, WellForme
   | refl => exact Inv.init s0 sys wf
   | tail _ s ih => exact ih.step s
 
+/-- a step shortens the stepping thread's code by one instruction and leaves the other threads alone -/
+theorem step?_code {c c' : Config σ ℓ} {i : Nat} (h : step? c i = some c') :
+    (c'.ths i).code.length + 1 = (c.ths i).code.length ∧ ∀ j, j ≠ i → c'.ths j = c.ths j := by
+  unfold step? at h
+  split at h
+  · cases h
+  · rename_i rest hc
+    split at h
+    · injection h with h; subst h; simp [hc]; intro j hj; exact upd_other _ _ hj
+    · cases h
+  · rename_i rest hc
+    split at h
+    · injection h with h; subst h; simp [hc]; intro j hj; exact upd_other _ _ hj
+    · cases h
+  · rename_i rest hc
+    split at h
+    · injection h with h; subst h; simp [hc]; intro j hj; exact upd_other _ _ hj
+    · split at h
+      · injection h with h; subst h; simp [hc]; intro j hj; exact upd_other _ _ hj
+      · cases h
+  · rename_i a rest hc
+    injection h with h; subst h; simp [hc]; intro j hj; exact upd_other _ _ hj
+
+theorem sum_map_lt (l : List Nat) (f g : Nat → Nat) (i : Nat) (hi : i ∈ l) (hnd : l.Nodup)
+    (hlt : g i < f i) (heq : ∀ j, j ≠ i → g j = f j) : (l.map g).sum < (l.map f).sum := by
+  induction l with
+  | nil => cases hi
+  | cons a l ih =>
+    simp only [List.map_cons, List.sum_cons]
+    have hnd' := List.nodup_cons.mp hnd
+    by_cases ha : a = i
+    · subst ha
+      have : (l.map g).sum = (l.map f).sum := by
+        congr 1
+        apply List.map_congr_left
+        intro j hj
+        exact heq j (fun h => hnd'.1 (h ▸ hj))
+      omega
+    · have hil : i ∈ l := by
+        rcases List.mem_cons.mp hi with h | h
+        · exact absurd h.symm ha
+        · exact h
+      have := ih hil hnd'.2
+      have := heq a ha
+      omega
+
+/-- every step consumes one instruction: executions of `n` threads are finite -/
+theorem step_remaining (n : Nat) {c c' : Config σ ℓ} (hb : ∀ i, n ≤ i → (c.ths i).code = []) (h : Step c c') :
+    remaining n c' < remaining n c ∧ ∀ i, n ≤ i → (c'.ths i).code = [] := by
+  obtain ⟨i, hs⟩ := h
+  obtain ⟨h1, h2⟩ := step?_code hs
+  have hin : i < n := by
+    apply Classical.byContradiction
+    intro hge
+    have := hb i (by omega)
+    rw [this] at h1
+    simp at h1
+  refine ⟨?_, ?_⟩
+  · unfold remaining
+    apply sum_map_lt (List.range n) _ _ i (List.mem_range.mpr hin) List.nodup_range
+    · omega
+    · intro j hj; rw [h2 j hj]
+  · intro j hj
+    have : j ≠ i := by omega
+    rw [h2 j this]; exact hb j hj
+
+/-- Re-entry: a thread that is the writer and whose next instruction is an acquire never moves again, and
+the lock is never released — in every continuation, whatever the other threads do. -/
+theorem self_deadlock {c : Config σ ℓ} {i : Nat} {m : Mode} {rest : Code σ ℓ}
+    (hw : c.lock.writer = some i) (hc : (c.ths i).code = .acq m :: rest) :
+    ∀ c', Reach c c' → c'.lock.writer = some i ∧ (c'.ths i).code = .acq m :: rest := by
+  intro c' h
+  induction h with
+  | refl => exact ⟨hw, hc⟩
+  | tail _ s ih =>
+    rename_i b c2
+    obtain ⟨hw', hc'⟩ := ih
+    obtain ⟨j, hs⟩ := s
+    by_cases hji : j = i
+    · subst hji
+      exfalso
+      cases m <;> simp [step?, hc', hw'] at hs
+    · have hother := (step?_code hs).2 i (fun h => hji h.symm)
+      refine ⟨?_, by rw [hother]; exact hc'⟩
+      unfold step? at hs
+      split at hs
+      · cases hs
+      · split at hs
+        · rename_i hfree; rw [hw'] at hfree; cases hfree.1
+        · cases hs
+      · split at hs
+        · rename_i hfree; rw [hw'] at hfree; cases hfree
+        · cases hs
+      · split at hs
+        · rename_i hwj; rw [hw'] at hwj; injection hwj with hwj; exact absurd hwj.symm hji
+        · split at hs
+          · injection hs with hs; subst hs; exact hw'
+          · cases hs
+      · injection hs with hs; subst hs; exact hw'
+
 end Zrnt.Conc.Monitor
